@@ -219,6 +219,20 @@ def entry(gen_name, dims=(2, 3), min_n=1, **opts):
 
 
 _KCACHE = {}
+_KCACHE_STATEFUL = {}
+
+
+def _stateful_kernel(h, gen_name, opts, needs):
+    """Generators whose kernels close over work buffers: one kernel object per (options, shape, dtype, threads) and process,
+    re-used by later cases, so that state hidden in the closure (e.g. 'already reset' flags) is exercised."""
+    key = (gen_name, tuple(sorted((k, str(v)) for k, v in opts.items())), h.case["dtype"], h.case["threads"], h.shape)
+    if key not in _KCACHE_STATEFUL:
+        with h.ctx.repo_call(f"{gen_name}({opts})"):
+            _KCACHE_STATEFUL[key] = kernels.build(gen_name, opts, needs, h.dtype, h.case["threads"], shape=h.shape)
+        h.ctx.note(labels=["closure_kernel_first_use"])
+    else:
+        h.ctx.note(labels=["closure_kernel_reused"])
+    return _KCACHE_STATEFUL[key]
 
 
 def _kernel(h, gen_name, needs=None, **opts):
@@ -674,10 +688,8 @@ def _e_strt(h):
 
 @entry("gen_vorticity_stretching_timestep_ssprk3_pyst_kernel_{d}d", dims=(3,), min_n=3)
 def _e_strk(h):
-    gname = "gen_vorticity_stretching_timestep_ssprk3_pyst_kernel_3d"
-    with h.ctx.repo_call(gname):
-        k, aux = kernels.build(gname, {}, "ssprk3", h.dtype, h.case["threads"], shape=h.shape)
-    aux["midstep_buffer_vector_field"][...] = 123.0
+    k, aux = _stateful_kernel(h, "gen_vorticity_stretching_timestep_ssprk3_pyst_kernel_3d", {}, "ssprk3")
+    aux["midstep_buffer_vector_field"][...] = 123.0 * h.sc[1]
     w, u, fl = h.inout("vorticity_field", 3), h.inp("velocity_field", 3), h.out("vorticity_stretching_flux_field", 3)
     p = h.sc[0] * 0.125
     h.snapshot()
@@ -741,10 +753,8 @@ for _o in (1, 2, 3):
         for _t in ("multiplicative", "convolution"):
             @entry("gen_laplacian_filter_kernel_{d}d", dims=(3,), min_n=3, filter_order=_o, field_type=_ft, filter_type=_t)
             def _e_filt(h, filter_order, field_type, filter_type):
-                with h.ctx.repo_call("gen_laplacian_filter_kernel_3d"):
-                    k, aux = kernels.build("gen_laplacian_filter_kernel_3d",
-                                           {"filter_order": filter_order, "field_type": field_type, "filter_type": filter_type},
-                                           "filter", h.dtype, h.case["threads"], shape=h.shape)
+                k, aux = _stateful_kernel(h, "gen_laplacian_filter_kernel_3d",
+                                          {"filter_order": filter_order, "field_type": field_type, "filter_type": filter_type}, "filter")
                 aux["filter_flux_buffer"][...] = h.sc[1] * 100.0  # arbitrary previous buffer contents
                 aux["field_buffer"][...] = -h.sc[2] * 50.0
                 nc = None if field_type == "scalar" else 3
@@ -788,6 +798,10 @@ def _strategy(tier, ki):
         shape = draw(st.one_of(st.just([lo] * d), gen.grid_shape(d, lo, max(hi[d], lo + 2))))
         threads = draw(st.sampled_from([False, 1, 2, 3]))
         dx = draw(st.sampled_from([0.0625, 0.1, 0.037]))
+        if ("laplacian_filter" in e["gen"] or "ssprk3" in e["gen"]) and draw(st.integers(0, 3)) > 0:
+            # closure-holding kernels: a small set of shapes so that one kernel object serves several cases
+            shape = draw(st.sampled_from([[3, 3, 3], [4, 6, 5], [7, 5, 6]]))
+            threads = 2
         if "penalise_field_boundary" in e["gen"] and e["opts"]["width"] > 0 and tier == "quick":
             # grid-dependent constants are embedded in the C source (1.3 s of g++ per kernel): small palette
             w = e["opts"]["width"]
